@@ -163,6 +163,16 @@ Proof.
   - apply mem_str_In. apply H2. exact Hs.
 Qed.
 
+(* the translator read everything it looks at, and the accessors of data.rs have the shapes [denote] mirrors *)
+Lemma translator_clean : ffi_translator_errors = [].
+Proof. vm_compute. reflexivity. Qed.
+Lemma accessors_as_modelled :
+  ffi_data_accessors =
+  [("Array", "slice"); ("Array", "par_slice"); ("Array", "to_slice");
+   ("Constant", "repeat"); ("Constant", "par_repeat"); ("Constant", "to_slice");
+   ("Fn", "call"); ("Fn", "par_call"); ("Fn", "to_slice")]%string.
+Proof. vm_compute. reflexivity. Qed.
+
 (* prototypes: same parameter types in the same order, same return type, on both sides *)
 Lemma strs_eqb_eq a b : strs_eqb a b = true -> a = b.
 Proof.
